@@ -285,7 +285,7 @@ pub fn run(cfg: &RunCfg) -> Report {
     let known = crate::known::load(&cfg.root);
     let excuse = known.listed("C19", "KF-C19-1");
     let max_len = cfg.tier.pick(30, 80);
-    let n = cfg.cases(100_000, 5_000_000);
+    let n = cfg.cases(600_000, 20_000_000);
     rep.absorb(
         "queue_history",
         explore(cfg, "C19", n, move || qcase(max_len), move |c: &QCase, st| {
